@@ -283,7 +283,7 @@ def reparse_equal(run, doc_out_text, opts, label, single=False):
             "print(json.dumps(o))" % (push0, single))
     try:
         p = subprocess.run([clirun.PY, "-c", code, path], stdout=subprocess.PIPE, stderr=subprocess.PIPE, timeout=300,
-                           env={"PYTHONWARNINGS": "ignore", "PATH": os.environ.get("PATH", "")})
+                           env={"PYTHONWARNINGS": "ignore", "PATH": os.environ.get("PATH", ""), "PYTHONDONTWRITEBYTECODE": "1"})
         if p.returncode != 0:
             run.witness("the tool's parser cannot re-read its own output", {"doc": label, "opts": opts,
                                                                           "err": p.stderr.decode()[-400:]})
